@@ -47,6 +47,15 @@ func (u *Unit) invoke(fr *Frame, st *State, x *ssa.Call) *State {
 	u.panicObl(st, fr, x, "nilinvoke", nn)
 	u.assume(st.pc, nn)
 	u.usedExterns["invoke "+key] = true
+	if fr.top {
+		ats := []types.Type{c.Value.Type()}
+		all := []*Val{{T: recv}}
+		for i, a := range c.Args {
+			ats = append(ats, a.Type())
+			all = append(all, args[i])
+		}
+		u.callsiteChecks(fr, st, x, u.calleeName(x), all, ats)
+	}
 	alloc := func() Term { return u.comp(st, "alloc") }
 	switch key {
 	case "github.com/veraison/go-cose.Signer.Algorithm", "github.com/veraison/go-cose.DigestSigner.Algorithm":
